@@ -3,6 +3,7 @@ constructor from a list-struct array, astype to / from the pandas Arrow dtype, p
 conversion, explicit type requests (cast of every field, or refusal)."""
 from __future__ import annotations
 
+import numpy as np
 import pandas as pd
 import pyarrow as pa
 
@@ -119,11 +120,29 @@ def generate(ctx):
                 if len(recs) > 1 and rng.random() < 0.5:
                     cut = rng.randint(0, len(recs))
                     ls = pa.chunked_array([whole.slice(1, cut), whole.slice(1 + cut, len(recs) - cut)])
+                elif any(r is None for r in recs) and i % 2 == 0:
+                    # null lists that still SPAN records of the child struct (legal Arrow: ListArray.from_arrays(offsets, values,
+                    # mask=...)): a missing row holds nothing, whatever the orientation the column came in
+                    filled = [r if r is not None else [{nm: gen.gen_value(rng, t) for nm, t in inp["schema"]} for _ in range(rng.randint(1, 2))]
+                              for r in recs]
+                    wh = pa.array(filled, type=lt)
+                    ls = pa.chunked_array([pa.ListArray.from_arrays(wh.offsets, wh.values, mask=pa.array([r is None for r in recs], type=pa.bool_()))])
             A = cq_list(cq_ls(phys_ls(ch, st)) for ch in ls.chunks)
             res = attempt(lambda: NEA(ls))
             impl_term, pq, lg2, raised = ao.col_result(res)
             sch = cq_schema(inp["lg"]["schema"])
             term = f"(chk_ls_import {sch} {A} {inp['L']} {impl_term} {pq})"
+            if res[0] == "ok":
+                # ... and the offsets-based quantities of what was stored are those of a compact array holding the same rows
+                # (a missing row that still spans elements shows up here, not in the masked read-back above)
+                compact = attempt(lambda: ao.summary_views(NEA(pa.chunked_array([pa.array(res[1].chunked_array.to_pylist(), type=st)], type=st))))
+                mine = attempt(lambda: ao.summary_views(res[1]))
+                same = compact[0] == "ok" and mine[0] == "ok" and all(repr(mine[1][k_]) == repr(compact[1][k_]) for k_ in ("isna", "list_lengths", "flat_length", "list_index"))
+                same = same and list(np.diff(mine[1]["list_offsets"])) == list(np.diff(compact[1]["list_offsets"]))
+                fl = attempt(lambda: [len(pd.Series(res[1]).nest.to_flat()), len(pd.Series(res[1]).nest.get_flat_index())])
+                same = same and fl[0] == "ok" and fl[1] == [compact[1]["flat_length"]] * 2
+                if not same:
+                    term = f"(match {term} with [a; b; c; s] => [a; false; c; s] | l => l end)"
             meta["impl_raised"] = raised
             cases.append(dict(base, op=which, term=term, impl_repr="raised" if raised else "ok"))
         else:
@@ -179,6 +198,21 @@ def generate(ctx):
                     assert back["n"].array.chunked_array.to_pylist() == want, "table -> pandas: content differs"
                     assert pa.chunked_array(pa.array(s)).to_pylist() == want if not isinstance(pa.array(s), pa.ChunkedArray) \
                         else pa.array(s).to_pylist() == want
+                    # a table made with an explicit schema - transposed, or with widened element types - and back to pandas: the
+                    # column the table holds is what comes back (the dtype named in the table's metadata does not override it)
+                    lst = transpose_struct_list_type(st)
+                    t_ls = pa.Table.from_pandas(nf, schema=pa.schema([("x", pa.int64()), ("n", lst)]), preserve_index=False)
+                    assert t_ls["n"].type == lst
+                    back_ls = t_ls.to_pandas()
+                    assert isinstance(back_ls["n"].dtype, NestedDtype) and back_ls["n"].dtype == s.dtype, f"list-struct table -> pandas: {back_ls['n'].dtype}"
+                    assert back_ls["n"].array.chunked_array.to_pylist() == want, "list-struct table -> pandas: content differs"
+                    ints = [f.name for f in st if f.type.value_type == pa.int64()]
+                    wide = pa.struct([pa.field(f.name, pa.list_(pa.float64()) if f.name in ints else f.type) for f in st])
+                    t_w = attempt(lambda: pa.Table.from_pandas(nf, schema=pa.schema([("x", pa.int64()), ("n", wide)]), preserve_index=False))
+                    if ints and t_w[0] == "ok":
+                        back_w = t_w[1].to_pandas()
+                        assert back_w["n"].dtype == NestedDtype(wide), f"widened table -> pandas: the column came back as {back_w['n'].dtype}"
+                        assert _R(back_w["n"].array.chunked_array.to_pylist()) == _R(t_w[1]["n"].to_pylist()), "widened table -> pandas: content differs"
                 else:
                     # explicit type request: every field cast, or refused
                     fld = rng.choice(list(st))
